@@ -224,6 +224,13 @@ func (tt *TermTab) Bin(op Op, a, b *Term) *Term {
 		if b.IsConst() && a.Op == OpAdd && a.B.IsConst() {
 			return tt.Bin(OpAdd, a.A, tt.Const(w, a.B.K+b.K))
 		}
+		// float constants outward so that they keep folding along a chain: (x + c) + y = (x + y) + c
+		if !b.IsConst() && a.Op == OpAdd && a.B.IsConst() {
+			return tt.Bin(OpAdd, tt.Bin(OpAdd, a.A, b), a.B)
+		}
+		if !a.IsConst() && b.Op == OpAdd && b.B.IsConst() {
+			return tt.Bin(OpAdd, tt.Bin(OpAdd, a, b.A), b.B)
+		}
 	case OpSub:
 		if b.IsConst() && b.K == 0 {
 			return a
@@ -508,7 +515,11 @@ func (tt *TermTab) Extract(a *Term, hi, lo uint8) *Term {
 	case OpNot:
 		return tt.Not(tt.Extract(a.A, hi, lo))
 	case OpAdd, OpSub, OpMul:
-		if lo == 0 {
+		// Truncation distributes over modular arithmetic, but doing so splits a value into pieces
+		// that no longer recombine syntactically (concat(extract(s,15,8), extract(s,7,0)) = s is lost
+		// once the low byte is rewritten as an 8-bit sum) — which turns byte-wise store/reload of a
+		// checksum into a hard adder-equivalence query. Only distribute when it folds an operand away.
+		if lo == 0 && (a.A.IsConst() || a.B.IsConst()) && (a.A.Op == OpZExt && a.A.A.W <= hi+1 || a.B.Op == OpZExt && a.B.A.W <= hi+1) {
 			return tt.Bin(a.Op, tt.Extract(a.A, hi, 0), tt.Extract(a.B, hi, 0))
 		}
 	case OpIte:
